@@ -957,7 +957,7 @@ func countPrefix(keys []string, prefix string) int {
 //
 // round 3: opts = optional features of the linter switched on for every run of the workspace (alone runs included);
 // repeats = how often the run over all N files is made; blocks = false leaves the partition out.
-func (rn *runner) runSized(ctx context.Context, rng *hutil.Rng, id, n int, conf string, opts []string, repeats int, blocks bool) ComposeCase {
+func (rn *runner) runSized(ctx context.Context, rng *hutil.Rng, id, n int, conf string, opts []string, repeats int, blocks, sequential bool) ComposeCase {
 	ws, exp := sizedWorkspace(id, n, conf)
 	ws.Opts = opts
 	if repeats < 1 {
@@ -1036,6 +1036,10 @@ func (rn *runner) runSized(ctx context.Context, rng *hutil.Rng, id, n int, conf 
 	sums := make([]*SumCase, len(keys))
 	var wg sync.WaitGroup
 	for i, k := range keys {
+		if sequential {
+			results[i], sums[i] = rn.lint(ctx, ws, root, want[k])
+			continue
+		}
 		wg.Add(1)
 		go func(i int, fs []string) {
 			defer wg.Done()
@@ -1279,16 +1283,17 @@ func chunk(fs []probe.File, k int) [][]probe.File {
 }
 
 type job struct {
-	id        int
-	ws        probe.Workspace
-	source    string
-	rng       *hutil.Rng
-	probeOnly bool
-	sized     int    // > 0: a size-boundary workspace of that many files (ws is generated by runSized)
-	conf      string // its configuration
-	opts      []string
-	repeats   int
-	noBlocks  bool
+	id         int
+	ws         probe.Workspace
+	source     string
+	rng        *hutil.Rng
+	probeOnly  bool
+	sized      int    // > 0: a size-boundary workspace of that many files (ws is generated by runSized)
+	conf       string // its configuration
+	opts       []string
+	repeats    int
+	noBlocks   bool
+	sequential bool // the Lint calls of the job one after the other
 }
 
 // optionSets: the optional features of the linter that change how the evaluation is set up (not what is linted):
@@ -1462,7 +1467,7 @@ func main() {
 				t0 := time.Now()
 				defer func() { res[i].Seconds = time.Since(t0).Seconds() }()
 				if j.sized > 0 {
-					res[i] = rn.runSized(ctx, j.rng, j.id, j.sized, j.conf, j.opts, j.repeats, !j.noBlocks)
+					res[i] = rn.runSized(ctx, j.rng, j.id, j.sized, j.conf, j.opts, j.repeats, !j.noBlocks, j.sequential)
 					return
 				}
 				res[i] = rn.runCompose(ctx, j.rng, j.id, j.ws, j.source, j.probeOnly)
@@ -1534,8 +1539,8 @@ func main() {
 	oid := 4000
 	for i, set := range osets {
 		ns, reps := []int{33}, 2
-		if i == 0 { // all on
-			ns, reps = []int{33, 65}, 3
+		if i == 0 { // all on: see the exclusive phase below
+			ns, reps = []int{33}, 2
 		} else if len(set) > 1 && tier != "quick" {
 			ns = []int{[]int{33, 47, 65}[ogen.Below(3)]}
 		}
@@ -1551,6 +1556,19 @@ func main() {
 			oid++
 		}
 	}
+	// exclusive phase: the all-on combination on N = 65 (thorough also 129) files, the run over all files repeated 8
+	// (20) times ONE AFTER THE OTHER while nothing else runs in this process: all CPUs work on the per-file goroutines of
+	// one run, which is when they meet at whatever they share (a Lint call beside nine others hardly ever shows that)
+	exN, exReps := []int{65}, 8
+	if tier != "quick" {
+		exN, exReps = []int{65, 129}, 20
+	}
+	var exclusive []job
+	for _, n := range exN {
+		exclusive = append(exclusive, job{id: oid, source: "sized-opts", rng: hutil.NewRng(ogen.Next()), sized: n, conf: "default",
+			opts: osets[0], repeats: exReps, noBlocks: true, sequential: true})
+		oid++
+	}
 	osizes := csizes
 	if tier == "quick" {
 		osizes = []int{2, 3, 4, 5}
@@ -1563,5 +1581,20 @@ func main() {
 	info := PoolInfo{Kind: "pool", Rules: bundleRules(), OptionSets: osets}
 	jobs = append(jobs, poolJobs(hutil.NewRng(hutil.SeedFromEnv()^0x9001), fx.Pool, tier, &info)...)
 	out.Emit(info)
+	if os.Getenv("VERIF_C02_ONLY") == "" || os.Getenv("VERIF_C02_ONLY") == "sized-opts" {
+		for _, j := range exclusive {
+			runJobs([]job{j})
+		}
+	}
+	// experiments only: VERIF_C02_ONLY=<source> runs the composition jobs of one source (the check never sets it)
+	if onlySrc := os.Getenv("VERIF_C02_ONLY"); onlySrc != "" {
+		var keep []job
+		for _, j := range jobs {
+			if j.source == onlySrc {
+				keep = append(keep, j)
+			}
+		}
+		jobs = keep
+	}
 	runJobs(jobs)
 }
